@@ -1,3 +1,7 @@
+-- run the whole upgrade as one transaction: an interrupted upgrade is rolled
+-- back, so the next start finds an intact v1 database and can simply retry
+BEGIN;
+
 CREATE TABLE `client_versions`
 (
  `app_id` VARCHAR,
@@ -13,3 +17,5 @@ CREATE INDEX `client_versions_appid_time_idx` on `client_versions` (`app_id`, `c
 
 DELETE FROM `version`;
 INSERT INTO `version` (`version`) VALUES (2);
+
+COMMIT;
